@@ -33,7 +33,8 @@ func TestMain(m *testing.M) {
 			"(custom-writers) point clouds written by a MeshWriter with Vector1..4PropertyWriter of drawn types uchar/int/float/double, custom property names, WriteUnspecifiedProperties on/off, read back through a matching MeshReader. " +
 			"Oracles: (1) the harness's own header parser + size law (binary: bytes after end_header == sum of count x record size incl. face records, parsed in the endianness the header TEXT declares; ascii: line and token counts); (2) ReadMesh(Write(m)): same topology and primitive count, per-corner equality of every attribute at the stored type's precision (float32 image exactly, 1/255 for 8-bit), user-named vN attributes under name_k scalars, nothing invented; (3) the three encodings decode to the same mesh. " +
 			"Non-trivial = non-identity indices or TexCoord present or >= 1 non-float property type. Distinct by case JSON. " +
-			"Sub-checks concurrent-writers (non-trivial: >= 2 writers) and huge-meshes (2^24+8 vertices, triangles naming vertex numbers beyond 2^24; every case non-trivial).",
+			"Sub-checks concurrent-writers (non-trivial: >= 2 writers) and huge-meshes (2^24+8 vertices, triangles naming vertex numbers beyond 2^24; every case non-trivial). " +
+			"One case in 25 carries 70..300 further scalar attributes feat_NNN (class wide/more-than-64-scalar-attributes). Sub-check count-sweep: a point cloud or triangle strip with every primitive count 1..4 000 (thorough 1..40 000) once, encodings cycling (every case non-trivial).",
 		Assumptions: []string{
 			"point clouds carry identity indices (the format has no index list for points and the writer stores the vertex list as it is; a cloud whose index list repeats, omits or reorders vertices would come back as the plain vertex list - noted in DESIGN, not judged)",
 			"8-bit colour values lie in [0,1]",
